@@ -988,9 +988,17 @@ impl<'a, 'b, W: Write> Serializer for &'a mut YamlSerializer<'b, W> {
                 if self.prefer_block_scalars {
                     // If it's already multiline and long, emit literal block style for readability.
                     let char_len = v.chars().count();
-                    if char_len > self.folded_wrap_col {
+                    // A literal block carries its text verbatim: it has no way to write control
+                    // characters, a CR, a byte order mark or the Unicode line separators.
+                    let literal_can_carry = !v.chars().any(|c| {
+                        (c.is_control() && c != '\n' && c != '\t')
+                            || matches!(c, '\u{FEFF}' | '\u{2028}' | '\u{2029}')
+                    });
+                    if char_len > self.folded_wrap_col && literal_can_carry {
                         self.pending_str_style = Some(StrStyle::Literal);
                         self.pending_str_from_auto = true;
+                    } else if char_len > self.folded_wrap_col {
+                        // fall through to the quoting logic below
                     } else {
                         // If removing newlines makes it plain-safe, then the only problem was
                         // newlines → allow literal block style. Otherwise, don't auto-select block
